@@ -131,7 +131,14 @@ pub fn expr_into_reward_account(
     let address = expr_into_address(expr, network)?;
 
     let hash_bytes = match address {
-        pallas::ledger::addresses::Address::Shelley(x) => x.delegation().to_vec(),
+        // a reward account is a stake address: header (key / script, network) + stake credential
+        pallas::ledger::addresses::Address::Shelley(x) => {
+            let stake = pallas::ledger::addresses::StakeAddress::try_from(x).map_err(|_| {
+                Error::FormatError("can't convert address to reward account".to_string())
+            })?;
+
+            stake.to_vec()
+        }
         pallas::ledger::addresses::Address::Stake(x) => x.to_vec(),
         _ => {
             return Err(Error::FormatError(
